@@ -434,7 +434,7 @@ class ClientConn:
             pass
 
 
-def build_request(method, target, headers, body=None, chunked=None, declare=True):
+def build_request(method, target, headers, body=None, chunked=None, declare=True, trailers=None):
     """raw HTTP/1.1 request bytes. headers: list of (bytes, bytes). chunked: list of chunk sizes or None."""
     if isinstance(method, str):
         method = method.encode()
@@ -456,7 +456,10 @@ def build_request(method, target, headers, body=None, chunked=None, declare=True
         if pos < len(body):
             piece = body[pos:]
             out += b"%x\r\n" % len(piece) + piece + b"\r\n"
-        out += b"0\r\n\r\n"
+        out += b"0\r\n"
+        for n, v in (trailers or []):        # trailer section of a chunked message (RFC 9112 7.1.2)
+            out += n + b": " + v + b"\r\n"
+        out += b"\r\n"
         return out
     if declare:
         out += b"Content-Length: %d\r\n" % len(body)
